@@ -40,6 +40,12 @@ type c14Collision struct {
 	Count int     `json:"count"`
 }
 
+type item struct {
+	msg sdk.Msg
+	typ string
+	js  string
+}
+
 type c14Report struct {
 	Types         []string          `json:"types"`
 	Generated     int               `json:"generated"`
@@ -64,7 +70,15 @@ func c14Docs() []*didtypes.DIDDocument {
 	svc := didtypes.NewService("service1", "LinkedDomains", "https://example.org")
 	a := didtypes.NewDIDDocument(did, didtypes.WithVerificationMethods([]*didtypes.VerificationMethod{&vm}), didtypes.WithAuthentications(auth))
 	b := didtypes.NewDIDDocument(did, didtypes.WithVerificationMethods([]*didtypes.VerificationMethod{&vm, &vm2}), didtypes.WithAuthentications(auth), didtypes.WithServices([]*didtypes.Service{&svc}))
-	return []*didtypes.DIDDocument{&a, &b}
+	docs := []*didtypes.DIDDocument{&a, &b}
+	// controller variants of the first document: absent, empty list, lists of empty strings, a DID
+	for _, c := range [][]string{{}, {""}, {"", ""}, {did}} {
+		d := a
+		cc := didtypes.JSONStringOrStrings(append([]string{}, c...))
+		d.Controller = &cc
+		docs = append(docs, &d)
+	}
+	return docs
 }
 
 // candidate values per field (by Go field name); every listed combination is generated
@@ -82,8 +96,11 @@ func c14Pool(typ reflect.Type, f reflect.StructField) []reflect.Value {
 	n := f.Name
 	switch {
 	case f.Type == reflect.TypeOf((*didtypes.DIDDocument)(nil)):
-		d := c14Docs()
-		return vs(d[0], d[1])
+		var out []reflect.Value
+		for _, d := range c14Docs() {
+			out = append(out, reflect.ValueOf(d))
+		}
+		return out
 	case f.Type.Kind() == reflect.Slice && f.Type.Elem().Kind() == reflect.Uint8:
 		return []reflect.Value{reflect.Zero(f.Type), reflect.ValueOf([]byte("s1")), reflect.ValueOf([]byte("s2"))}
 	case f.Type.Kind() != reflect.String:
@@ -102,9 +119,67 @@ func c14Pool(typ reflect.Type, f reflect.StructField) []reflect.Value {
 		return vs("i1", "i2")
 	case n == "Name" || n == "Symbol":
 		return vs("n1", "n2")
-	default: // Moniker, Description, Uri, UriHash, Data
+	case n == "Description" || n == "Moniker":
+		return vs("", "x", " x")
+	default: // Uri, UriHash, Data
 		return vs("", "x")
 	}
+}
+
+// c14DiffSig: the JSON leaf paths on which the given messages of one type differ, each with the set of values seen.
+func c14DiffSig(members []item) string {
+	vals := map[string]map[string]bool{}
+	var walk func(prefix string, v interface{}, out map[string]string)
+	walk = func(prefix string, v interface{}, out map[string]string) {
+		switch x := v.(type) {
+		case map[string]interface{}:
+			for k, e := range x {
+				walk(prefix+"."+k, e, out)
+			}
+		default:
+			b, _ := json.Marshal(x)
+			if len(b) > 48 {
+				b = append(b[:48], '~')
+			}
+			out[prefix] = string(b)
+		}
+	}
+	var flats []map[string]string
+	for _, m := range members {
+		var v interface{}
+		_ = json.Unmarshal([]byte(m.js), &v)
+		f := map[string]string{}
+		walk("", v, f)
+		flats = append(flats, f)
+		for p := range f {
+			if vals[p] == nil {
+				vals[p] = map[string]bool{}
+			}
+		}
+	}
+	for p := range vals {
+		for _, f := range flats {
+			v, ok := f[p]
+			if !ok {
+				v = "<absent>"
+			}
+			vals[p][v] = true
+		}
+	}
+	var parts []string
+	for p, set := range vals {
+		if len(set) < 2 {
+			continue
+		}
+		var vs []string
+		for v := range set {
+			vs = append(vs, v)
+		}
+		sort.Strings(vs)
+		parts = append(parts, strings.TrimPrefix(p, ".")+"="+strings.Join(vs, "|"))
+	}
+	sort.Strings(parts)
+	return strings.Join(parts, ";")
 }
 
 func c14Messages() (all []sdk.Msg, generated int) {
@@ -156,14 +231,17 @@ func TestC14SignBytesInjective(t *testing.T) {
 	msgs, gen := c14Messages()
 	rep.Generated = gen
 	// keep the messages that pass stateless validation; distinct by (type, proto bytes)
-	type item struct {
-		msg sdk.Msg
-		typ string
-		js  string
-	}
 	seen := map[string]bool{}
 	var items []item
 	for _, m := range msgs {
+		// identity of the message as it arrives (before stateless validation, which the node runs before it
+		// computes sign bytes and which must not change what is signed)
+		typ := sdk.MsgTypeURL(m)
+		bz0, err := enc.Codec.Marshal(m.(codec.ProtoMarshaler))
+		if err != nil {
+			t.Fatalf("marshal %s: %v", typ, err)
+		}
+		js0, _ := enc.Codec.MarshalJSON(m.(codec.ProtoMarshaler))
 		ok := func() (ok bool) {
 			defer func() {
 				if r := recover(); r != nil {
@@ -177,17 +255,12 @@ func TestC14SignBytesInjective(t *testing.T) {
 			continue
 		}
 		rep.Valid++
-		typ := sdk.MsgTypeURL(m)
-		bz, err := enc.Codec.Marshal(m.(codec.ProtoMarshaler))
-		if err != nil {
-			t.Fatalf("marshal %s: %v", typ, err)
-		}
-		k := typ + "|" + hex.EncodeToString(bz)
+		k := typ + "|" + hex.EncodeToString(bz0)
 		if seen[k] {
 			continue
 		}
 		seen[k] = true
-		js, _ := enc.Codec.MarshalJSON(m.(codec.ProtoMarshaler))
+		js := js0
 		items = append(items, item{m, typ, string(js)})
 		rep.PerType[typ]++
 	}
@@ -262,14 +335,15 @@ func TestC14SignBytesInjective(t *testing.T) {
 				continue
 			}
 			// class of a collision: the sign mode and the set of message types that share these bytes
-			cnt := map[string]int{}
+			byType := map[string][]item{}
 			for _, it := range grp {
-				cnt[it.typ]++
+				byType[it.typ] = append(byType[it.typ], it)
 			}
 			var tys []string
-			for ty, n := range cnt {
-				if n > 1 {
-					ty += "(x2+)"
+			for ty, members := range byType {
+				if len(members) > 1 {
+					// same-type collision: name the fields in which the colliding messages differ, with their values
+					ty += "{" + c14DiffSig(members) + "}"
 				}
 				tys = append(tys, ty)
 			}
